@@ -747,6 +747,67 @@ func c04RunHistory(ops []c04HOp) (bad string, at int) {
 	return "", -1
 }
 
+// c04Repeated: a long-lived scope answers the fortieth lookup as it answered the first. Three live injectors
+// (request scope -> application scope -> an outer one); for every placement of one registration that answers
+// for I (an implementor / the exact key, in each scope) and every kind of resolution, forty repetitions.
+func c04Repeated(l *core.Local) {
+	for place := 0; place < 3; place++ {
+		for _, exact := range []bool{false, true} {
+			for _, how := range []string{"Value", "Invoke", "Invoke(fast)", "Apply"} {
+				reg := &c04Reg{chTags: map[uintptr]string{}}
+				injs := []inject.Injector{inject.New(), inject.New(), inject.New()}
+				injs[0].SetParent(injs[1])
+				injs[1].SetParent(injs[2])
+				v := reg.mkValue(1, fmt.Sprintf("s%d", place), 0) // a *T1, which implements I
+				if exact {
+					injs[place].MapTo(v.Interface(), (*c04I)(nil))
+				} else {
+					injs[place].Map(v.Interface())
+				}
+				for rep := 1; rep <= 40; rep++ {
+					l.Evals++
+					l.Transitions++
+					var got reflect.Value
+					var err error
+					switch how {
+					case "Value":
+						got = injs[0].Value(c04TypI)
+					case "Invoke", "Invoke(fast)":
+						rec := &c04Call{}
+						plain, fast := c04Funcs([]int{5}, rec)
+						fn := plain
+						if how == "Invoke(fast)" && fast != nil {
+							fn = fast
+						}
+						_, err = injs[0].Invoke(fn)
+						if len(rec.args) == 1 {
+							got = rec.args[0]
+						}
+					case "Apply":
+						t := &c04TargetJOnlyI{}
+						err = injs[0].Apply(t)
+						got = reflect.ValueOf(&t.C).Elem()
+					}
+					if err != nil || !got.IsValid() || reg.id(got) != reg.id(v) {
+						l.Class("mismatch")
+						l.Violate("repeated-lookup/"+how, fmt.Sprintf("the %d. %s of I in a request scope whose %s (exact key: %v) holds the only answer: got %s, error %v, expected %s", rep, how, []string{"own scope", "application scope", "outermost scope"}[place], exact, reg.id(got), err, reg.id(v)),
+							c04Case{What: "repeated", Sig: []int{place, rep}, Fast: exact, Hist: []c04HOp{{Kind: how}}})
+						break
+					}
+				}
+				l.Traces++
+				l.States++
+				l.NonTrivial++
+				l.Class("repeated-lookups")
+			}
+		}
+	}
+}
+
+type c04TargetJOnlyI struct {
+	C c04I `inject:""`
+}
+
 func c04Histories(r *core.Run) {
 	ops := c04HistoryOps()
 	depth := 4
@@ -1089,6 +1150,12 @@ func c04Run(r *core.Run) {
 	})
 	// phase C: histories on live injectors - registrations and resolutions interleaved (a resolution
 	// must not change what later registrations mean)
+	{
+		l := core.NewLocal()
+		c04Repeated(l)
+		r.Bounds["repeated_lookups"] = "I resolved 40 times through Value / Invoke (plain, fast) / Apply on one chain of three scopes, for every placement of the one registration that answers"
+		r.Merge(l)
+	}
 	c04Histories(r)
 	c04SealedPhase(r)
 	fl := core.NewLocal()
@@ -1137,6 +1204,13 @@ func c04Replay(raw json.RawMessage) (bool, string) {
 			if b, _ := c04CheckInvoke(c.Config, c.Sig, c.Fast); b != "" {
 				return true, b
 			}
+		}
+		return false, ""
+	case "repeated":
+		l := core.NewLocal()
+		c04Repeated(l)
+		if l.Classes["mismatch"] > 0 {
+			return true, "a repeated lookup is answered differently (see the check's output)"
 		}
 		return false, ""
 	case "apply-embedded":
